@@ -53,6 +53,7 @@ type Ctx struct {
 	notes    []string
 	analysed map[string]int
 	control  bool // true while analysing the positive-control package
+	extras   map[string]interface{}
 }
 
 func NewCtx(p *Prog, prop, tier string) *Ctx {
@@ -72,8 +73,10 @@ func (c *Ctx) Axiom(ids ...string) {
 		c.axioms[a] = true
 	}
 }
-func (c *Ctx) Note(format string, a ...interface{}) { c.notes = append(c.notes, fmt.Sprintf(format, a...)) }
-func (c *Ctx) Count(what string, n int)            { c.analysed[what] += n }
+func (c *Ctx) Note(format string, a ...interface{}) {
+	c.notes = append(c.notes, fmt.Sprintf(format, a...))
+}
+func (c *Ctx) Count(what string, n int) { c.analysed[what] += n }
 
 func (c *Ctx) add(o Oblig) {
 	o.Property = c.Property
@@ -280,6 +283,7 @@ func (c *Ctx) Finish(verifDir string, start time.Time, level string, explanation
 			"checker_cmd":         checkerCmd,
 			"trusted_base":        trusted,
 			"exhaustive":          true,
+			"thorough_extras":     c.extras,
 		},
 	}
 	_ = os.MkdirAll(filepath.Join(verifDir, "evidence"), 0o755)
